@@ -217,6 +217,65 @@ def walk_error_runs(ctx):
     return fails, n
 
 
+def read_fault_runs(ctx):
+    """The first read of the input itself fails (EIO), for every handler: the failure is reported and counted, the exit status says so,
+    the file is as it was and no temporary file stays.  And for the opt-in handler with a source file beside the byte-compiled one:
+    when the switch-over fails (rename, fchmod), nothing at all has changed - the source file's mtime included."""
+    import re
+    import samples as smp
+    fails, n = [], 0
+    for name, (data, hs) in smp.per_handler().items():
+        t = fh.Tree()
+        try:
+            t.add_file("d/" + name, data, mode=0o640, mtime_ns=1_650_000_000_000_000_000)
+            target = t.path("d/" + name)
+            tr = os.path.join(ctx.tmp, "read-trace.txt")
+            env = dict(ENV, SOURCE_DATE_EPOCH=str(smp.EPOCH))
+            base = ["strace", "-f", "-y", "-qq", "-s", "0", "-o", tr, "-e", "trace=read"]
+            subprocess.run(base + [cli_bin(False), "--check", "--handler", hs[0], target], env=env, capture_output=True, timeout=60)
+            k = 0
+            which = None
+            for line in open(tr, errors="replace"):
+                if re.match(r"^\d+\s+read\(", line):
+                    k += 1
+                    if "<" + target + ">" in line:
+                        which = k
+                        break
+            if which is None:
+                continue
+            before = fh.snapshot(t.root)
+            p = subprocess.run(base + ["-e", "inject=read:error=EIO:when=%d" % which, cli_bin(False), "--handler", hs[0], target], env=env, capture_output=True, timeout=60)
+            out = (p.stdout + p.stderr).decode("utf-8", "replace")
+            after = fh.snapshot(t.root)
+            n += 1
+            label = "%s handler, the first read of the input fails with EIO" % hs[0]
+            s = fh.parse_summary(out)
+            if fh.snap_equal(before, after):
+                fails.append(("read-fault-touches", "%s: the tree changed: %s" % (label, "; ".join(fh.snap_equal(before, after)[:3])), label))
+            elif p.returncode == 0 or s is None or s["errors"] == 0:
+                fails.append(("read-fault-unreported", "%s: exit %d, summary %s - the failure is neither counted as an error nor reflected in the exit status" % (label, p.returncode, s), label))
+        finally:
+            t.remove()
+    for fault in ("rename:error=EIO:when=1", "fchmod:error=EIO:when=1"):
+        t = fh.Tree()
+        try:
+            t.add_file("d/mod.pyc", smp.dirty_pyc(), mode=0o644, mtime_ns=1_650_000_000_000_000_000)
+            t.add_file("d/mod.py", b"print(1)\n", mtime_ns=1_650_000_000_000_000_000)
+            before = fh.snapshot(t.root)
+            rc, out = fh.run_cli(["--handler", "pyc-zero-mtime", t.path("d")], epoch=None, timeout=60, inject=fault)
+            after = fh.snapshot(t.root)
+            n += 1
+            label = "pyc-zero-mtime with a source file beside the pyc, %s" % fault
+            d = fh.snap_equal(before, after)
+            if d:
+                fails.append(("failed-switch-touches", "%s: the switch-over failed, yet something changed: %s" % (label, "; ".join(d[:3])), label))
+            elif rc == 0:
+                fails.append(("read-fault-unreported", "%s: exit 0" % label, label))
+        finally:
+            t.remove()
+    return fails, n
+
+
 def worker_death(ctx, known):
     """A worker dies: the controller must terminate and report failure."""
     fails = []
@@ -272,7 +331,9 @@ def run(ctx):
     wfails, wres = worker_death(ctx, known)
     sfails, sn = size_limit_runs(ctx)
     efails, en = walk_error_runs(ctx)
-    wfails = list(wfails) + sfails + efails
+    rfails, rn = read_fault_runs(ctx)
+    ctx.coverage["read_and_switch_fault_runs"] = rn
+    wfails = list(wfails) + sfails + efails + rfails
     ctx.coverage["size_limited_runs"] = sn
     ctx.coverage["walk_error_runs"] = en
     seen = set()
